@@ -15,9 +15,54 @@ H2_UNITS = [HP + m for m in ("send_task", "_send_data", "handle", "stream_send",
 LIB_H2 = ["assumed contract M_h2 for h2.connection.H2Connection 4.4.1 (pyvc/models_h2.py): which calls raise which exceptions, window arithmetic, event alphabet and what h2 guarantees about event fields",
           "assumed contract M_prio for priority.PriorityTree 2.0 (pyvc/models_h2.py)"]
 
+HS = "hypercorn.protocol.http_stream:HTTPStream."
+UT = "hypercorn.utils:"
+LIB_RT = ["interface contracts for Event / TaskGroup / WorkerContext / Logger (contracts/a_runtime.py, b_support.py); both worker implementations are checked against them under C16"]
+STREAM_ASSUME = ["app_send is not re-entered by the application (one send at a time per request)", "the application queue is FIFO (delivery order = put order)"]
+
 PLAN = {
+    "C01": {
+        "units": [HS + "__init__", HS + "handle", UT + "filter_pseudo_headers", HP + "_create_stream", HP + "_handle_events"],
+        "trusted_base": LIB_H2 + LIB_RT,
+        "assumptions": COMMON_ASSUME + STREAM_ASSUME + ["h11/h2 events equal the client's message for every segmentation (library contract)", "unquote is an uninterpreted function"],
+        "explanation": "request delivery fidelity: field-by-field scope postcondition, one application per request, body chunks forwarded one to one, pseudo-header filtering",
+        "level_text": "The scope is proved field by field equal to the Request event for every request; exactly one spawn per valid request; each Body/EndBody event becomes exactly one http.request message with the same bytes.",
+        "level_note": "Trusted: pyvc encoder; parsing and segmentation independence are h11/h2's (assumed contracts); queue FIFO.",
+    },
+    "C02": {
+        "units": [UT + "suppress_body", UT + "build_and_validate_headers", HS + "app_send", HP + "stream_send", HP + "_send_data", HP + "_flush"] + [SB + m for m in ("push", "pop", "set_complete", "complete")],
+        "trusted_base": LIB_H2 + LIB_RT,
+        "assumptions": COMMON_ASSUME + STREAM_ASSUME + ["serialisation and framing legality are h11/h2's"],
+        "explanation": "response automaton as preconditions of the stream's send callback (one final head, body after head, one end), suppression rule, buffer FIFO",
+        "level_text": "Every event a stream emits is checked against the response automaton at the emission point, for all messages and states; suppress_body equals the statement's rule; StreamBuffer is FIFO.",
+        "level_note": "Trusted: pyvc encoder, library models; client-side parsing not modelled.",
+    },
+    "C03": {
+        "units": [HS + "handle", HS + "app_send", HP + "handle", HP + "_close_stream", HP + "stream_send"],
+        "trusted_base": LIB_H2 + LIB_RT,
+        "assumptions": COMMON_ASSUME + STREAM_ASSUME,
+        "explanation": "exactly-once disconnect and access record as class invariants stable under the yield rule; nothing is put after the disconnect (callback precondition)",
+        "level_text": "g_disc/g_access invariants hold at every await of every method for all interleavings; the application queue receives nothing after the disconnect.",
+        "level_note": "Trusted: pyvc encoder; rely/guarantee meta-theory; handle() assumed not re-entered (the re-entrant case is finding F4i).",
+    },
+    "C05": {
+        "units": [HS + "app_send", HP + "stream_send", HP + "_close_stream"],
+        "trusted_base": LIB_H2 + LIB_RT,
+        "assumptions": COMMON_ASSUME + STREAM_ASSUME,
+        "explanation": "application failure: app_send(None) emits 500+end when nothing was started and StreamClosed without EndBody otherwise",
+        "level_text": "Postconditions of app_send(None) for every state; no EndBody is emitted for an incomplete response.",
+        "level_note": "Trusted: pyvc encoder, library models. What the protocol does with StreamClosed on HTTP/2 (no RST_STREAM, finding F5) is demonstrated natively.",
+    },
+    "C12": {
+        "units": [HS + "app_send", UT + "build_and_validate_headers"],
+        "trusted_base": LIB_RT,
+        "assumptions": COMMON_ASSUME + STREAM_ASSUME,
+        "explanation": "rejection table: a call that returns normally was valid for its state; an exception raised into the application leaves nothing emitted; header validation",
+        "level_text": "For every (state, message) pair the call either is valid or raises before emitting anything; validated headers never contain CR/LF/NUL (loop invariant).",
+        "level_note": "Trusted: pyvc encoder; Any-typed application values follow CPython's conversion table as encoded in pyvc/calls.py.",
+    },
     "C04": {
-        "units": H2_UNITS,
+        "units": H2_UNITS + [HS + "handle"],
         "trusted_base": LIB_H2,
         "assumptions": COMMON_ASSUME + ["byte-level parsing of HTTP/2 frames is h2's; inputs range over everything the assumed h2 contract may return"],
         "explanation": "no client input causes an internal error: generated run-time-exception obligations (no undeclared exception escapes) and class invariants I1/I2 over every event h2 may deliver",
